@@ -312,6 +312,22 @@ def run(prop, tier):
         else:
             rep.violation("-".join(sorted(v["clauses"])), payload)
     rep.notes["steps_failing_clauses_of_the_sibling_property"] = other
+    if prop == "C04":
+        # "reached through the decoded-request execute path of every framer": pipelined data-access histories through the
+        # seven real front-ends on every framing they accept, judged by ServerTrace; C04 owns the data / store clauses
+        import servercheck
+        stc = servercheck.gen_c09("quick" if tier == "quick" else "thorough", random.Random(seed() * 7 + 404))
+        if tier == "quick":
+            stc = stc[:300]
+        sv, sst = validate_traces("ServerTrace", "ServerTrace.cfg", stc, timeout=3000)
+        rep.add_tv(sst, len(stc), sum(len(t["ev"]) for t in stc))
+        for t in stc:
+            v = sv[t["id"]]
+            if v["status"] == "FAIL" and set(v["clauses"]) & {"ResponseData", "UnitStore"} and not (set(v["clauses"]) & {"OneResponsePerRequest", "NotAResponseFrame"}):
+                rep.violation("frontend-%s-%s" % (t["fe"], "-".join(sorted(v["clauses"]))),
+                              {"property": prop, "engine": "ServerTrace", "trace": t, "verdict": v})
+            elif v["status"] == "OK":
+                rep.distinct(("frontend", t["fe"], t["kind"], len(t["ev"])))
     rep.notes["self_test"] = self_test(ok_traces)
     for t in ok_traces[:3]:
         rep.sample({"id": t["id"], "path": t["path"], "zero": t["cfg"]["zero"],
